@@ -7,6 +7,7 @@ import (
 	"time"
 
 	"github.com/beevik/etree"
+	saml2 "github.com/russellhaering/gosaml2"
 	dsig "github.com/russellhaering/goxmldsig"
 	"pgregory.net/rapid"
 
@@ -241,6 +242,12 @@ func tamper(root *etree.Element, kind, how string) {
 }
 
 func checkC02(c C02Case) h.Outcome {
+	return judgeC02(c, func() *saml2.SAMLServiceProvider { return c.SP.Build() })
+}
+
+// judgeC02 evaluates one case; newSP supplies the service provider for each entry-point call (a fresh one,
+// or a long-lived instance that has just been re-configured to c.SP's clock and store).
+func judgeC02(c C02Case, newSP func() *saml2.SAMLServiceProvider) h.Outcome {
 	o := h.Outcome{}
 	hon, why := c.honoured()
 	trivial := c.Signer.Key != "A" && c.KeyInfo == "own" && c.ClockPos == "inside" && c.Tamper == "none" && inStore(c.SP.Store, c.Signer)
@@ -259,7 +266,7 @@ func checkC02(c C02Case) h.Outcome {
 	var rs []res
 	switch c.Kind {
 	case "response", "assertion":
-		r, err := c.SP.Build().ValidateEncodedResponse(c.Encoded)
+		r, err := newSP().ValidateEncodedResponse(c.Encoded)
 		x := res{entry: "ValidateEncodedResponse", err: err}
 		if err == nil {
 			x.rootFlag = r.SignatureValidated
@@ -268,7 +275,7 @@ func checkC02(c C02Case) h.Outcome {
 			}
 		}
 		rs = append(rs, x)
-		info, err := c.SP.Build().RetrieveAssertionInfo(c.Encoded)
+		info, err := newSP().RetrieveAssertionInfo(c.Encoded)
 		y := res{entry: "RetrieveAssertionInfo", err: err}
 		if err == nil {
 			y.rootFlag = info.ResponseSignatureValidated
@@ -278,14 +285,14 @@ func checkC02(c C02Case) h.Outcome {
 		}
 		rs = append(rs, y)
 	case "LogoutRequest":
-		r, err := c.SP.Build().ValidateEncodedLogoutRequestPOST(c.Encoded)
+		r, err := newSP().ValidateEncodedLogoutRequestPOST(c.Encoded)
 		x := res{entry: "ValidateEncodedLogoutRequestPOST", err: err}
 		if err == nil {
 			x.rootFlag = r.SignatureValidated
 		}
 		rs = append(rs, x)
 	case "LogoutResponse":
-		r, err := c.SP.Build().ValidateEncodedLogoutResponsePOST(c.Encoded)
+		r, err := newSP().ValidateEncodedLogoutResponsePOST(c.Encoded)
 		x := res{entry: "ValidateEncodedLogoutResponsePOST", err: err}
 		if err == nil {
 			x.rootFlag = r.SignatureValidated
@@ -334,8 +341,63 @@ func checkC02(c C02Case) h.Outcome {
 	return o
 }
 
-func TestC02(t *testing.T)        { h.RunProp(t, "C02", genC02, checkC02) }
-func TestC02_Replay(t *testing.T) { h.RunReplay(t, "C02", checkC02) }
+// C02Seq: ONE long-lived service provider whose clock and certificate store are re-assigned between
+// validations (time passing, key roll-over by replacing the store). Every step must be judged by the
+// configuration in force at that step, exactly as a fresh instance would.
+type C02Seq struct {
+	Steps     []C02Case `json:"steps"`
+	KeepClock bool      `json:"keepClock"` // all steps at the same instant: the Clock object is never replaced, only the store
+}
+
+func genC02Seq(t *rapid.T) C02Seq {
+	n := rapid.IntRange(2, 4).Draw(t, "steps")
+	q := C02Seq{KeepClock: rapid.Bool().Draw(t, "keepClock")}
+	for i := 0; i < n; i++ {
+		c := genC02(t)
+		if q.KeepClock && i > 0 {
+			// same window and clock position as the first step, so the instant (and the clock object) stays
+			c.Signer.Window, c.ClockPos = q.Steps[0].Signer.Window, q.Steps[0].ClockPos
+			for j := range c.SP.Store {
+				if c.SP.Store[j].Key == c.Signer.Key {
+					c.SP.Store[j].Window = c.Signer.Window
+				}
+			}
+			finishC02(&c, i, func(err error) { t.Fatalf("harness: %v", err) })
+		}
+		q.Steps = append(q.Steps, c)
+	}
+	return q
+}
+
+func checkC02Seq(q C02Seq) h.Outcome {
+	o := h.Outcome{NonTrivial: true}
+	sp := q.Steps[0].SP.Build()
+	o.Classes = append(o.Classes, fmt.Sprintf("keepClock:%v", q.KeepClock))
+	for i, c := range q.Steps {
+		if !q.KeepClock || !sp.Clock.Now().Equal(c.SP.Now()) {
+			sp.Clock = dsig.NewFakeClockAt(c.SP.Now())
+		}
+		sp.IDPCertificateStore = h.Store(c.SP.Store)
+		so := judgeC02(c, func() *saml2.SAMLServiceProvider { return sp })
+		hon, _ := c.honoured()
+		o.Classes = append(o.Classes, fmt.Sprintf("step%d:honoured:%v", i, hon))
+		if so.Violation != nil {
+			so.Violation.Sig = "reused-sp/" + so.Violation.Sig
+			so.Violation.Detail = fmt.Sprintf("step %d of %d on a re-configured long-lived service provider: %s", i+1, len(q.Steps), so.Violation.Detail)
+			o.Violation = so.Violation
+			return o
+		}
+	}
+	return o
+}
+
+func TestC02_PSeq(t *testing.T) { h.RunProp(t, "C02.seq", genC02Seq, checkC02Seq) }
+
+func TestC02(t *testing.T) { h.RunProp(t, "C02", genC02, checkC02) }
+func TestC02_Replay(t *testing.T) {
+	h.RunReplay(t, "C02", checkC02)
+	h.RunReplay(t, "C02.seq", checkC02Seq)
+}
 
 // TestC02_Grid: exhaustive boundary grid — 4 kinds x 4 windows x 7 clock positions x KeyInfo variants x store sizes 0..3.
 func TestC02_Grid(t *testing.T) {
